@@ -1017,6 +1017,487 @@ func equalLists(a, b []string) bool {
 func equalItems(a, b []item) bool { return fmt.Sprint(a) == fmt.Sprint(b) }
 
 // ---------------------------------------------------------------------------------------------
+// filegroups of one package: over same-package generated targets that come back from the cache, and pairs
+// of filegroups exporting the same file (Model: fg_hist). One repository = K packages, driven through
+// five invocations: [gen-warm: build the generator alone | build], wipe plz-out + build, build, edit +
+// build, wipe plz-out + build.
+
+type fgcase struct {
+	Pkg       string            `json:"pkg"`
+	Kind      string            `json:"kind"`  // gen: genrule g + filegroup t over it | pair: filegroups u and t over the same source files
+	Shape     string            `json:"shape"` // one | two | dir
+	Arg       string            `json:"arg,omitempty"`
+	Files     map[string]string `json:"files,omitempty"`
+	Declared  []string          `json:"declared"`
+	UDeclared []string          `json:"u_declared,omitempty"`
+	Order     string            `json:"order,omitempty"` // pair: u-first (t depends on u) | t-first (u depends on t)
+	Warm      bool              `json:"warm,omitempty"`  // gen: the first invocation builds the generator alone
+	Relabel   int               `json:"relabel,omitempty"`
+	Edit      string            `json:"edit,omitempty"`
+
+	ver      int
+	rng      *lib.Rng
+	steps    []string
+	obs      []string
+	trail    []map[string]any
+	sets     [][]item
+	prevDisk []item
+	lastOK   bool
+	tried    bool // t has been attempted at least once
+}
+
+func (f *fgcase) tLabel() string { return "//" + f.Pkg + ":t" }
+func (f *fgcase) gLabel() string { return "//" + f.Pkg + ":g" }
+
+func (f *fgcase) eff(hs []string) []string {
+	out := []string{}
+	for _, h := range hs {
+		if h != "" {
+			out = append(out, h)
+		}
+	}
+	return out
+}
+
+// items: the outputs of t (= of u, = of g), sorted by name, with the content their source has now
+func (f *fgcase) items() []item {
+	switch f.Kind + "/" + f.Shape {
+	case "gen/one":
+		return []item{{Name: "g.txt", Data: f.Arg + "\n"}}
+	case "gen/two":
+		return []item{{Name: "g_a.txt", Data: f.Arg + "\n"}, {Name: "g_b.txt", Data: f.Arg + "\n"}}
+	case "gen/dir":
+		return []item{{Name: "g_dir", Dir: true, Leaves: []string{f.Files["a.txt"], f.Files["b.txt"]}}}
+	case "pair/one":
+		return []item{{Name: "a.txt", Data: f.Files["a.txt"]}}
+	case "pair/two":
+		return []item{{Name: "a.txt", Data: f.Files["a.txt"]}, {Name: "b.txt", Data: f.Files["b.txt"]}}
+	case "pair/dir":
+		return []item{{Name: "d", Dir: true, Leaves: []string{f.Files["d/a.txt"], f.Files["d/b.txt"]}}}
+	}
+	panic(f.Kind + "/" + f.Shape)
+}
+
+func hashesExtra(hs []string) string {
+	if len(hs) == 0 {
+		return ""
+	}
+	return "hashes = " + pyList(hs) + ","
+}
+
+func (f *fgcase) pkg() *e2e.Pkg {
+	p := &e2e.Pkg{Files: map[string]string{}}
+	for k, v := range f.Files {
+		p.Files[k] = v
+	}
+	if f.Kind == "gen" {
+		g := &e2e.Target{Name: "g", Kind: "genrule"}
+		switch f.Shape {
+		case "one":
+			g.Outs, g.Cmd = []string{"g.txt"}, e2e.Cmd{Op: "const", Arg: f.Arg}
+		case "two":
+			g.Outs, g.Cmd = []string{"g_a.txt", "g_b.txt"}, e2e.Cmd{Op: "const", Arg: f.Arg}
+		case "dir":
+			g.Srcs, g.Outs, g.Cmd, g.OutIsDir = []string{"a.txt", "b.txt"}, []string{"g_dir"}, e2e.Cmd{Op: "copydir"}, true
+		}
+		if f.Relabel > 0 {
+			g.Labels = []string{fmt.Sprintf("v%d", f.Relabel)}
+		}
+		p.Targets = []*e2e.Target{g, {Name: "t", Kind: "filegroup", Srcs: []string{":g"}, Extra: hashesExtra(f.Declared)}}
+		return p
+	}
+	srcs := []string{"a.txt"}
+	switch f.Shape {
+	case "two":
+		srcs = []string{"a.txt", "b.txt"}
+	case "dir":
+		srcs = []string{"d"}
+	}
+	u := &e2e.Target{Name: "u", Kind: "filegroup", Srcs: srcs, Extra: hashesExtra(f.UDeclared)}
+	tt := &e2e.Target{Name: "t", Kind: "filegroup", Srcs: srcs, Extra: hashesExtra(f.Declared)}
+	if f.Order == "u-first" {
+		tt.Deps = []string{":u"}
+	} else {
+		u.Deps = []string{":t"}
+	}
+	p.Targets = []*e2e.Target{u, tt}
+	return p
+}
+
+// request: the label to ask plz for at this step ("" = nothing)
+func (f *fgcase) request(step int) string {
+	if f.Kind == "gen" {
+		if step == 1 && f.Warm {
+			return f.gLabel()
+		}
+		return f.tLabel()
+	}
+	if f.Order == "u-first" {
+		return f.tLabel()
+	}
+	return "//" + f.Pkg + ":u"
+}
+
+func (f *fgcase) readDisk(repo *e2e.Repo) []item {
+	var out []item
+	for _, it := range f.items() {
+		n := e2e.ReadTree(filepath.Join(repo.Dir, "plz-out", "gen", f.Pkg, it.Name))
+		switch n.Kind {
+		case "file":
+			out = append(out, item{Name: it.Name, Data: n.Content})
+		case "dir":
+			out = append(out, item{Name: it.Name, Dir: true, Leaves: walkLeaves(n)})
+		default:
+			return nil
+		}
+	}
+	return out
+}
+
+func coqFgDef(declared []string, items []item, origin string) string {
+	srcs := []string{}
+	for i, it := range items {
+		srcs = append(srcs, "{| s_path := "+lib.N(uint64(i+1))+"; s_out := "+coqOut(it)+"; s_origin := "+origin+" |}")
+	}
+	return "{| g_declared := " + lib.StrList(declared) + "; g_srcs := " + lib.List(srcs) + " |}"
+}
+
+type fgEpisode struct {
+	Index   int       `json:"repo"`
+	Cfg     config    `json:"config"`
+	Cases   []*fgcase `json:"packages"`
+	skipped string
+	fatal   string
+	fails   []lib.Failing
+	nOracle int
+	hists   [][2]string
+}
+
+func (ep *fgEpisode) Fail(class, what string, in any) {
+	ep.fails = append(ep.fails, lib.Failing{Class: class, What: what, Input: in})
+}
+
+var fgKinds = []struct{ Kind, Shape, Order string }{
+	{"gen", "one", ""}, {"pair", "one", "u-first"}, {"gen", "two", ""}, {"pair", "two", "u-first"}, {"gen", "dir", ""}, {"pair", "dir", "u-first"},
+	{"pair", "one", "t-first"}, {"gen", "one", ""}, {"pair", "two", "t-first"}, {"gen", "two", ""}, {"pair", "one", "u-first"}, {"gen", "dir", ""},
+}
+
+func genFgEpisode(r *lib.Rng, idx, k int) *fgEpisode {
+	ep := &fgEpisode{Index: idx, Cfg: configs[(idx*3+1)%len(configs)]}
+	for i := 0; i < k; i++ {
+		ks := fgKinds[(idx*5+i)%len(fgKinds)]
+		f := &fgcase{Pkg: fmt.Sprintf("f%d", i), Kind: ks.Kind, Shape: ks.Shape, Order: ks.Order, Files: map[string]string{}}
+		f.Arg = lib.Pick(r, words) + fmt.Sprintf(" g%d", i)
+		if f.Kind == "pair" || f.Shape == "dir" {
+			names := []string{"a.txt", "b.txt"}
+			if f.Kind == "pair" && f.Shape == "dir" {
+				names = []string{"d/a.txt", "d/b.txt"}
+			}
+			for _, n := range names {
+				f.Files[n] = lib.Pick(r, fileContents) + fmt.Sprintf("%s%d", filepath.Base(n)[:1], i)
+			}
+		}
+		f.Warm = f.Kind == "gen" && r.Chance(2, 3)
+		// wrong lists are what the two shapes are about: half of the packages start with one
+		mode := lib.Pick(r, []string{"good", "good", "bad", "bad", "bad", "none"})
+		f.Declared, _ = genDeclared(r, ep.Cfg, f.items(), mode)
+		if f.Kind == "pair" && r.Chance(1, 3) {
+			f.UDeclared, _ = genDeclared(r, ep.Cfg, f.items(), "good")
+		}
+		f.rng = r.Fork()
+		ep.Cases = append(ep.Cases, f)
+	}
+	return ep
+}
+
+func (ep *fgEpisode) spec() *e2e.Spec {
+	s := &e2e.Spec{Pkgs: map[string]*e2e.Pkg{}, Config: []string{"[build]", "hashfunction = " + ep.Cfg.Fn}}
+	for _, a := range ep.Cfg.Checkers {
+		s.Config = append(s.Config, "hashcheckers = "+a)
+	}
+	for _, f := range ep.Cases {
+		s.Pkgs[f.Pkg] = f.pkg()
+	}
+	return s
+}
+
+func (f *fgcase) applyEdit(cfg config, repo *e2e.Repo) {
+	r := f.rng
+	opts := []string{"none", "wrong", "wrong", "fix", "content", "content+fix"}
+	if len(f.eff(f.Declared)) > 0 {
+		opts = append(opts, "drop")
+	}
+	if f.Kind == "gen" {
+		opts = append(opts, "relabel", "relabel+wrong")
+	}
+	f.Edit = lib.Pick(r, opts)
+	if strings.HasPrefix(f.Edit, "content") {
+		f.ver++
+		if f.Kind == "gen" && f.Shape != "dir" {
+			f.Arg = fmt.Sprintf("%s v%d", f.Arg, f.ver)
+		} else {
+			n := "a.txt"
+			if f.Kind == "pair" && f.Shape == "dir" {
+				n = "d/a.txt"
+			}
+			f.Files[n] = f.Files[n] + fmt.Sprintf("+v%d", f.ver)
+			// a new inode: a filegroup output is a hard link to its source (see the note in episode.run)
+			os.Remove(filepath.Join(repo.Dir, f.Pkg, n))
+		}
+		if len(f.UDeclared) > 0 {
+			f.UDeclared, _ = genDeclared(r, cfg, f.items(), "good")
+		}
+	}
+	if strings.HasPrefix(f.Edit, "relabel") {
+		f.Relabel++
+	}
+	switch {
+	case strings.HasSuffix(f.Edit, "wrong"):
+		f.Declared, _ = genDeclared(r, cfg, f.items(), "bad")
+	case strings.HasSuffix(f.Edit, "fix"):
+		f.Declared, _ = genDeclared(r, cfg, f.items(), "good")
+	case f.Edit == "drop":
+		f.Declared = nil
+	}
+}
+
+func (ep *fgEpisode) run(base string) {
+	repo := e2e.NewRepo(base, "repo")
+	repo.CacheDir = filepath.Join(base, "cache") // a private dir cache: the generators come back from it after a wipe
+	repo.Threads = 4
+	for step := 1; step <= 5; step++ {
+		wiped := false
+		switch step {
+		case 2, 5:
+			repo.RemovePlzOut()
+			wiped = true
+			for _, f := range ep.Cases {
+				f.steps = append(f.steps, "HWipe")
+				f.prevDisk = nil
+			}
+		case 4:
+			for _, f := range ep.Cases {
+				f.applyEdit(ep.Cfg, repo)
+			}
+		}
+		repo.Write(ep.spec())
+		labels := []string{}
+		for _, f := range ep.Cases {
+			labels = append(labels, f.request(step))
+		}
+		o := runBuild(repo, labels)
+		if o.exit != 0 && len(o.failed) == 0 || o.exit == 0 && len(o.failed) != 0 || o.exit < 0 {
+			ep.fatal = fmt.Sprintf("filegroup repo, step %d: exit %d with %d failed targets listed: %s", step, o.exit, len(o.failed), headTail(o.text, 1500))
+			return
+		}
+		for l := range o.failed {
+			if !strings.HasSuffix(l, ":t") {
+				ep.fatal = fmt.Sprintf("filegroup repo, step %d: %s failed (only the pinned filegroups can): %s", step, l, tailStr(o.text, 1500))
+				return
+			}
+		}
+		for _, f := range ep.Cases {
+			// a requested target that neither failed nor left its outputs: plz stopped early (--keep_going quirk, see episode.run)
+			if !o.failed[f.tLabel()] && f.readDisk(repo) == nil {
+				ep.skipped = fmt.Sprintf("step %d: %s neither built nor reported failed", step, f.request(step))
+				return
+			}
+		}
+		for _, f := range ep.Cases {
+			ep.observe(f, step, wiped, o, repo)
+		}
+	}
+}
+
+func (ep *fgEpisode) observe(f *fgcase, step int, wiped bool, o buildObs, repo *e2e.Repo) {
+	items := f.items()
+	f.sets = append(f.sets, items)
+	disk := f.readDisk(repo)
+	if disk != nil {
+		f.sets = append(f.sets, disk)
+	}
+	tRequested := !(f.Kind == "gen" && step == 1 && f.Warm)
+	ok := !o.failed[f.tLabel()]
+	declared := f.eff(f.Declared)
+	inPlaceBefore := f.prevDisk != nil && equalItems(f.prevDisk, items)
+	origin, gstate := "FromFile", ""
+	if f.Kind == "gen" {
+		// the state the generator ends in, from what was observed: did its command run, were its outputs there before
+		ran := o.ran[f.gLabel()]
+		switch {
+		case ran && inPlaceBefore:
+			gstate = "TUnchanged"
+		case ran:
+			gstate = "TBuilt"
+		case f.prevDisk != nil:
+			gstate = "TReused"
+		default:
+			gstate = "TCached"
+		}
+		origin = "(FromTarget " + gstate + ")"
+		for i, it := range items {
+			f.steps = append(f.steps, lib.App("HPut", lib.N(uint64(i+1)), coqOut(it)))
+		}
+		ep.hists = append(ep.hists, [2]string{"fg_generator_state", fmt.Sprintf("step%d/%s", step, gstate)})
+	}
+	tr := map[string]any{"step": step, "wiped": wiped, "edit": f.Edit, "declared": append([]string{}, f.Declared...), "u_declared": f.UDeclared, "requested": f.request(step),
+		"generator_state": gstate, "t_ok": ok, "disk": disk, "in_place_before": inPlaceBefore}
+	if tRequested {
+		var defs []string
+		var oks []string
+		tdef := coqFgDef(declared, items, origin)
+		udef := coqFgDef(f.eff(f.UDeclared), items, origin)
+		switch {
+		case f.Kind == "gen":
+			defs, oks = []string{tdef}, []string{lib.Bool(ok)}
+		case f.Order == "u-first":
+			defs, oks = []string{udef, tdef}, []string{"true", lib.Bool(ok)}
+		case ok:
+			defs, oks = []string{tdef, udef}, []string{"true", "true"}
+		default: // t failed, u (which depends on it) was not attempted
+			defs, oks = []string{tdef}, []string{"false"}
+		}
+		f.steps = append(f.steps, lib.App("HRun", lib.List(defs)))
+		dl := []string{}
+		for i := range items {
+			v := "None"
+			if disk != nil {
+				v = "Some " + coqOut(disk[i])
+			}
+			dl = append(dl, lib.Pair(lib.N(uint64(i+1)), "("+v+")"))
+		}
+		f.obs = append(f.obs, "{| ro_ok := "+lib.List(oks)+"; ro_disk := "+lib.List(dl)+" |}")
+	}
+	f.trail = append(f.trail, tr)
+	if tRequested {
+		ep.oracle(f, step, ok, disk, inPlaceBefore, gstate, o, repo)
+		f.lastOK, f.tried = ok, true
+	}
+	f.prevDisk = disk
+}
+
+// the property oracle for the pinned filegroup t (no model involved)
+func (ep *fgEpisode) oracle(f *fgcase, step int, ok bool, disk []item, inPlaceBefore bool, gstate string, o buildObs, repo *e2e.Repo) {
+	ep.nOracle++
+	declared := f.eff(f.Declared)
+	items := f.items()
+	in := map[string]any{"repo": ep.Index, "config": ep.Cfg, "package": f.Pkg, "kind": f.Kind, "shape": f.Shape, "order": f.Order, "step": step,
+		"declared": f.Declared, "ok": ok, "disk": disk, "generator_state": gstate, "outputs_in_place_before_the_invocation": inPlaceBefore,
+		"BUILD": renderPkg(f), "history": append([]map[string]any{}, f.trail...)}
+	ep.hists = append(ep.hists, [2]string{"fg_step_outcome", fmt.Sprintf("step%d/%s/ok=%v/declared=%v/inplace=%v", step, f.Kind, ok, len(declared) > 0, inPlaceBefore)})
+	if ok {
+		if disk == nil {
+			ep.Fail("success-without-outputs", fmt.Sprintf("filegroup %s reported built but an output is missing in plz-out", f.tLabel()), in)
+		} else if len(declared) > 0 && !oracleMatches(ep.Cfg, disk, declared) {
+			// the listed finding, kept narrow: every output was in plz-out, with the content it has now, BEFORE this
+			// invocation, and (generated sources) the generator neither ran with a different result nor was restored
+			if inPlaceBefore && (f.Kind == "pair" || gstate == "TReused" || gstate == "TUnchanged") {
+				ep.Fail("filegroup-unchanged-output-not-checked", fmt.Sprintf("filegroup %s with hashes %q that match nothing built successfully: its output files were already in place, so the hash check was skipped", f.tLabel(), declared), in)
+			} else if f.Kind == "gen" {
+				ep.Fail("filegroup-over-"+strings.ToLower(gstate[1:])+"-source-not-verified", fmt.Sprintf("filegroup %s (%s) over a target of its own package that was %s in this invocation built successfully at step %d although no declared hash %q matches its outputs under %v; the outputs were not in plz-out before", f.tLabel(), f.Shape, gstate[1:], step, declared, cfgAlgos(ep.Cfg)), in)
+			} else {
+				ep.Fail("filegroup-sharing-a-file-not-verified", fmt.Sprintf("filegroup %s (%s, %s) shares its output file(s) with //%s:u; they were not in plz-out before this invocation, and it built successfully at step %d although no declared hash %q matches its outputs under %v", f.tLabel(), f.Shape, f.Order, f.Pkg, step, declared, cfgAlgos(ep.Cfg)), in)
+			}
+		}
+		if disk != nil && !equalItems(disk, items) {
+			ep.Fail("outputs-differ-from-sources", fmt.Sprintf("filegroup %s built but plz-out does not hold the content of its sources", f.tLabel()), in)
+		}
+	} else {
+		if len(declared) == 0 {
+			ep.Fail("failed-without-hashes", fmt.Sprintf("%s failed although it declares no hashes: %s", f.tLabel(), tailStr(o.text, 600)), in)
+		} else if oracleMatches(ep.Cfg, items, declared) {
+			ep.Fail("rejected-matching-hash", fmt.Sprintf("%s failed although a declared hash matches its sources: %s", f.tLabel(), tailStr(o.text, 600)), in)
+		}
+		for _, it := range items {
+			if n := e2e.ReadTree(filepath.Join(repo.Dir, "plz-out", "gen", f.Pkg, it.Name)); n.Kind != "absent" {
+				ep.Fail("output-left-after-failed-verification", fmt.Sprintf("%s failed its hash verification but %s is still in plz-out", f.tLabel(), it.Name), in)
+			}
+		}
+	}
+	// the repeat build of the unchanged tree (step 3); after a wipe (steps 2 and 5) a failure must come back as well
+	if f.tried && (step == 3 || (step == 2 && !(f.Kind == "gen" && f.Warm))) {
+		if f.lastOK && !ok {
+			ep.Fail("verified-target-not-reused", fmt.Sprintf("%s verified in the previous build; the next build of the unchanged tree failed: %s", f.tLabel(), tailStr(o.text, 600)), in)
+		}
+		if !f.lastOK && ok {
+			ep.Fail("failure-not-repeated", fmt.Sprintf("%s failed verification, the next build of the unchanged tree succeeded", f.tLabel()), in)
+		}
+	}
+}
+
+func headTail(s string, n int) string {
+	if len(s) <= 2*n {
+		return s
+	}
+	return s[:n] + "\n[...]\n" + s[len(s)-n:]
+}
+
+func renderPkg(f *fgcase) string {
+	var b strings.Builder
+	for _, t := range f.pkg().Targets {
+		b.WriteString(t.Render(f.Pkg, "/dev/null"))
+	}
+	return b.String()
+}
+
+func (ep *fgEpisode) emit(c *lib.Ctx) {
+	for _, f := range ep.Cases {
+		tbl := &tableT{seen: map[string]bool{}}
+		for _, set := range f.sets {
+			tbl.addSet(ep.Cfg, set)
+		}
+		term := lib.App("CFg", coqCfg(ep.Cfg), lib.List(f.steps), lib.List(tbl.items), lib.List(f.obs))
+		js := map[string]any{"kind": "filegroup-history", "repo": ep.Index, "config": ep.Cfg, "package": f.Pkg, "fg_kind": f.Kind, "shape": f.Shape, "order": f.Order, "warm": f.Warm, "edit": f.Edit, "trail": f.trail}
+		c.Case(term, js, fmt.Sprint("fg", ep.Index, f.Pkg), true)
+		c.Hist("fg_shape", f.Kind+"/"+f.Shape+"/"+f.Order)
+		c.Hist("fg_edit", f.Edit)
+	}
+}
+
+func fgEpisodes(c *lib.Ctx, base string) {
+	n := c.Scale(4, 40)
+	eps := make([]*fgEpisode, n)
+	for i := range eps {
+		eps[i] = genFgEpisode(c.Rng.Fork(), i, 9)
+	}
+	var wg sync.WaitGroup
+	sem := make(chan struct{}, 8)
+	for i := range eps {
+		wg.Add(1)
+		sem <- struct{}{}
+		go func(i int) {
+			defer wg.Done()
+			defer func() { <-sem }()
+			dir := filepath.Join(base, fmt.Sprintf("fg%d", i))
+			os.MkdirAll(dir, 0o755)
+			eps[i].run(dir)
+			os.RemoveAll(dir)
+		}(i)
+	}
+	wg.Wait()
+	for _, ep := range eps {
+		if ep.fatal != "" {
+			panic(fmt.Sprintf("filegroup repository %d: %s", ep.Index, ep.fatal))
+		}
+		if ep.skipped != "" {
+			c.Note("filegroup repo %d dropped: %s (--keep_going stopped early)", ep.Index, ep.skipped)
+			c.Hist("keep_going_unreported_target", "fg-repo-dropped")
+			continue
+		}
+		for i := 0; i < ep.nOracle; i++ {
+			c.Oracle()
+		}
+		for _, h := range ep.hists {
+			c.Hist(h[0], h[1])
+		}
+		for _, f := range ep.fails {
+			c.Fail(f.Class, f.What, f.Input)
+		}
+		ep.emit(c)
+	}
+}
+
+// ---------------------------------------------------------------------------------------------
 // UnprefixedHashes in process
 
 var alphabet = []string{":", ":", " ", " ", "\t", "\n", "a", "f", "0", "9", "sha1", "sha256", " ", " ", "　", "\u0085", "\xc2", "\x85", "\xa0", "\xe2\x80", "\x80", "​", "\v", "\f", "\r", " ", " ", " ", " ", "Z"}
@@ -1114,11 +1595,16 @@ func main() {
 		c.Rule("repositories of 8 independent targets (genrules with one file, several files, a directory output, output_dirs; filegroups of 1-2 files) under 7 settings of build.hashfunction/hashcheckers, " +
 			"each with a declared hash list (correct value in a configured algorithm bare / with `algo:` prefixes and ASCII or Unicode spaces, near miss, truncated, extended, upper case, unconfigured algorithm, other form, empty, none), " +
 			"driven through the real plz: build, build again, delete plz-out and tamper with the dir-cache entry (replace / in place / with content whose hash is declared), build, edit (re-split or reorder the list, wrong list, fixed list, source edit, drop, add a wrong list), build, build again; " +
+			"plus repositories of 9 packages each holding a filegroup with declared hashes over a genrule of the SAME package (one file, two files, a directory; private dir cache; the first invocation builds the generator alone or everything) or a pair of filegroups exporting the same source file(s) (one pinned, one plain or pinned correctly; a dependency forces either order), driven through: build, delete plz-out and build (the generator comes back from the cache), build, edit (wrong / fixed / dropped list, new content, generator relabelled) and build, delete plz-out and build; " +
 			"plus random strings through core.BuildTarget.UnprefixedHashes in process. distinct = distinct (config, outputs, declared list) resp. (repository, target) histories resp. hash strings; non-trivial = a hash list is declared / the string has a colon")
 		unprefixCases(c)
 		base := e2e.Scratch("c35")
 		defer os.RemoveAll(base)
 		corpus(c, base)
+		fgEpisodes(c, base)
+		if os.Getenv("C35_ONLY_FG") != "" { // debugging aid: only the filegroup repositories
+			return
+		}
 		nrepos := c.Scale(9, 120)
 		eps := make([]*episode, nrepos)
 		for i := range eps {
